@@ -360,6 +360,7 @@ Definition guard_find_root (f : T -> T) (xl xr : T) : res unit :=
 Definition lit_1em16 : T := nlit Ops 1 10000000000000000 8112963841460668 (-106).
 Definition guard_inv_erf (p : T) : res unit :=
   if nltb Ops (nabs Ops (p - one)%num) lit_1em16 then Ok tt
+  else if nltb Ops (nabs Ops (p + one)%num) lit_1em16 then Ok tt
   else if ngeb Ops (nabs Ops p) one then Exit
   else guard_find_root (fun x => (nerf Ops x - p)%num) (nneg Ops (nofZ Ops 10)) (nofZ Ops 10).
 
